@@ -14,10 +14,12 @@ Definition rt_shape_ok : bool :=
    && rt_scan_float_l_rule)%bool.
 
 Definition rt_print := print_items rt_config.
+Definition rt_print_to_string := print_to_string rt_config.
+Definition rt_print_to_file := print_to_file rt_config.
 Definition rt_scan_str := scan_str rt_config.
 Definition rt_scan_file := scan_file rt_config.
 Definition rt_ty_of := ty_of.
 Definition rt_mkspec := Build_nspec.
 
 Extraction Language OCaml.
-Extraction "../ocaml/gen/RoundTrip.ml" rt_config rt_shape_ok rt_print rt_scan_str rt_scan_file rt_ty_of rt_mkspec.
+Extraction "../ocaml/gen/RoundTrip.ml" rt_config rt_shape_ok rt_print rt_print_to_string rt_print_to_file rt_scan_str rt_scan_file rt_ty_of rt_mkspec.
